@@ -45,6 +45,25 @@ func (g *pgen) corpus(focus string, start int) []*ConvSpec {
 	}
 	var out []*ConvSpec
 	idx := start
+	// default:update without any default FUNC (converter level / method level / below a method that has a FUNC for its own
+	// root only): *T -> *U still yields nil for nil and a fresh pointer otherwise, at the root, below a field, a slice
+	// element and a map value
+	for _, lvl := range []int{0, 1} {
+		in := g.newNamed(1, &Ty{K: "struct", Pkg: 1, Fields: []Field{{"ID", tBasic(bkInt)}}}, "S")
+		inT := g.newNamed(1, &Ty{K: "struct", Pkg: 1, Fields: []Field{{"ID", tBasic(bkInt)}}}, "T")
+		s := g.newNamed(1, &Ty{K: "struct", Pkg: 1, Fields: []Field{{"P", tPtr(tNamed(in))}, {"L", tSlice(tPtr(tNamed(in)))}, {"M", tMap(tBasic(bkString), tPtr(tNamed(in)))}, {"N", tBasic(bkInt)}}}, "S")
+		t := g.newNamed(1, &Ty{K: "struct", Pkg: 1, Fields: []Field{{"P", tPtr(tNamed(inT))}, {"L", tSlice(tPtr(tNamed(inT)))}, {"M", tMap(tBasic(bkString), tPtr(tNamed(inT)))}, {"N", tBasic(bkInt)}}}, "T")
+		c := &ConvSpec{Name: fmt.Sprintf("C%d", idx)}
+		idx++
+		m := &MethodSpec{Name: "M0", Src: tPtr(tNamed(s)), Tgt: tPtr(tNamed(t)), Fields: map[string]*fieldSet{}}
+		if lvl == 0 {
+			c.Lines = []string{"default:update"}
+		} else {
+			m.Lines = []string{"default:update yes"}
+		}
+		c.Methods = []*MethodSpec{m, {Name: "M1", Src: tNamed(s), Tgt: tNamed(t), Fields: map[string]*fieldSet{}}}
+		out = append(out, c)
+	}
 	for srcPtr := 0; srcPtr < 2; srcPtr++ {
 		for tgtPtr := 0; tgtPtr < 2; tgtPtr++ {
 			for fnPtr := 0; fnPtr < 2; fnPtr++ {
